@@ -775,6 +775,11 @@ func (r *yieldRewriter) rewriteBreakContinues(body *ast.BlockStmt) {
 		case *ast.SwitchStmt, *ast.TypeSwitchStmt:
 			enterSwitch(true)
 		case *ast.FuncLit:
+			if !r.thunks[n] {
+				// closure written by user,
+				// break / continue / goto inside belong to it
+				return false
+			}
 			enterLoop(false)
 			enterSwitch(false)
 			enterFuncLit(n)
